@@ -59,6 +59,7 @@ def check(ctx):
     ctx.rule("C05-R3", "TABLE-AGREE(IR): tags built == tags emitted by each backend == tags walked for parameters; tuple arities match the consumers' indexing; admitted operator sets are keys of the emit tables or explicitly declined; parameter order of producer and consumer agree")
     ctx.rule("C05-R4", "THIN: for each admitted operator the emitted primitive is the primitive of the interpreter's implementation and the interpreter has no result path the compiled form lacks (exceptions triaged)")
     ctx.rule("C05-R5", "admission: a variable is compiled only if its value is exactly int/float (type identity, not isinstance) or a backend ndarray")
+    ctx.rule("C05-R8", "production guards: each IR tag is produced only under the positive admission facts it needs (exact int/float literal; exact int/float or backend array variable; dyad with operator in the tag's operator set; monad `-`; adverb `/` for reduce and `\\` for scan)")
     ctx.rule("C05-R6", "every emitted composite fragment is parenthesised (or a call), so that nesting cannot re-associate operators")
     ctx.trust("Python operator <-> ufunc table: " + ", ".join(f"{k}->{v}" for k, v in tables.UFUNC_OF_PYOP.items()))
 
@@ -139,6 +140,8 @@ def _fallback(ctx, repo):
 def _ir_tables(ctx, repo):
     built = tables.ir_tags_built(repo)
     opsets = tables.op_sets(repo)
+    tag_set = _production_guards(ctx, repo, opsets)
+    ctx.note("tag_operator_sets", tag_set)
     walk_tags = tables.collect_params_tags(repo)
     ctx.note("ir_tags", built)
     ctx.note("operator_sets", {k: sorted(v) for k, v in opsets.items()})
@@ -165,7 +168,11 @@ def _ir_tables(ctx, repo):
                 declines = any(isinstance(n, ast.If) and any(src(n.test) == f"{v} is None" for v in lk) and
                                any(isinstance(r, ast.Return) and isinstance(r.value, ast.Constant) and r.value.value is None for r in n.body)
                                for s in d["node"].body for n in walk_local(s))
-                admitted = {"binop": opsets.get("_ARITH_OPS", set()), "cmp": opsets.get("_CMP_OPS", set()), "reduce": opsets.get("_REDUCE_SCAN_OPS", set()), "scan": opsets.get("_REDUCE_SCAN_OPS", set())}.get(tag, set())
+                if tag not in tag_set:
+                    ctx.ob("C05-R3", fq, f"tag '{tag}': the operator set guarding its production is known", False, node=d["node"], construct=f"{name} '{tag}' operator set unknown",
+                           msg=f"the front end produces '{tag}' without a single operator-set membership guard, so the emit table cannot be compared with what is admitted")
+                    continue
+                admitted = opsets[tag_set[tag]]
                 missing = admitted - set(d["ops"])
                 ctx.ob("C05-R3", fq, f"tag '{tag}': admitted operators {sorted(admitted)} are emit-table keys or declined via None", not missing or declines, node=d["node"],
                        construct=f"{name} '{tag}' operator coverage", msg=f"operators {sorted(missing)} are admitted by the front end but the {name} '{tag}' table has no entry and no decline path: KeyError/None source at compile time")
@@ -325,6 +332,105 @@ def check_rewrap(ctx, repo, rid):
     ctx.ob(rid, f.fq, "the wrapper is KGCall(x.a, x.args, x.arity)", bool(fresh_wrap), node=rets[0], construct="call wrapper shape")
 
 
+
+# ------------------------------------------------------------------ R8 production guards
+def _pos_atoms(node, fnode):
+    """atomic facts at node, with `x not in S` / `x != c` under negative polarity normalised to the positive form"""
+    out = []
+    for e, pol in atoms_at(node, fnode):
+        if isinstance(e, ast.Compare) and len(e.ops) == 1 and not pol and isinstance(e.ops[0], (ast.NotIn, ast.NotEq, ast.IsNot)):
+            flip = {ast.NotIn: ast.In, ast.NotEq: ast.Eq, ast.IsNot: ast.Is}[type(e.ops[0])]
+            e2 = ast.Compare(left=e.left, ops=[flip()], comparators=e.comparators)
+            out.append((e2, True))
+        else:
+            out.append((e, pol))
+    return out
+
+
+def production_guards(repo):
+    """for every `return ('<tag>', ...)` of the front end: the positive facts that dominate it
+    -> {tag: [{"node": return, "eq": {constants compared == }, "in": {set names}, "types": {exact types}, "isinst": {classes}}]}"""
+    f = repo.fn("compiler:_ast_to_ir")
+    out = {}
+    for r in [n for n in walk_local(f.node) if isinstance(n, ast.Return) and isinstance(n.value, ast.Tuple) and n.value.elts and
+              isinstance(n.value.elts[0], ast.Constant) and isinstance(n.value.elts[0].value, str)]:
+        g = {"node": r, "eq": set(), "in": set(), "types": None, "isinst": set()}
+        for e, pol in _pos_atoms(r, f.node):
+            if not pol:
+                continue
+            if isinstance(e, ast.Compare) and len(e.ops) == 1:
+                c = e.comparators[0]
+                if isinstance(e.ops[0], ast.Eq) and isinstance(c, ast.Constant):
+                    g["eq"].add(c.value)
+                elif isinstance(e.ops[0], ast.In) and isinstance(c, ast.Name):
+                    g["in"].add(c.id)
+                elif isinstance(e.ops[0], ast.Is) and isinstance(c, ast.Name):
+                    g["types"] = (g["types"] or set()) | {c.id}
+            elif isinstance(e, ast.BoolOp) and isinstance(e.op, ast.Or) and all(
+                    isinstance(v, ast.Compare) and len(v.ops) == 1 and isinstance(v.ops[0], ast.Is) and isinstance(v.comparators[0], ast.Name) for v in e.values):
+                # `t is int or t is float`: the innermost such disjunction is the admission set of this production
+                ts = {v.comparators[0].id for v in e.values}
+                g["types"] = ts if g["types"] is None or ts <= {"int", "float"} else g["types"]
+                g.setdefault("type_disj", []).append(ts)
+            elif isinstance(e, ast.Call) and callee_name(e) == "isinstance" and len(e.args) == 2:
+                g["isinst"].add(src(e.args[1]))
+        out.setdefault(r.value.elts[0].value, []).append(g)
+    return out
+
+
+def _admitting(e):
+    """a positive fact that establishes the value is an exact int/float or a backend array (disjunctions: every disjunct)"""
+    if isinstance(e, ast.BoolOp) and isinstance(e.op, ast.Or):
+        return all(_admitting(v) for v in e.values)
+    if isinstance(e, ast.Compare) and len(e.ops) == 1 and isinstance(e.ops[0], ast.Is) and isinstance(e.comparators[0], ast.Name):
+        return e.comparators[0].id in ("int", "float")
+    if isinstance(e, ast.Call) and callee_name(e) == "isinstance" and len(e.args) == 2:
+        ty = src(e.args[1])
+        return ("ndarray" in ty or "Tensor" in ty) and "," not in ty
+    return False
+
+
+def _production_guards(ctx, repo, opsets):
+    f = repo.fn("compiler:_ast_to_ir")
+    pg = production_guards(repo)
+    ctx.floor("C05-R8", "IR productions of the front end", sum(len(v) for v in pg.values()), 7)
+    tag_sets = {}
+    for tag, gs in sorted(pg.items()):
+        for g in gs:
+            ctx.instance("C05-R8", f.fq, f"production of '{tag}'")
+            r = g["node"]
+            if tag == "literal":
+                td = g.get("type_disj") or ([g["types"]] if g["types"] else [])
+                ok = any(t <= {"int", "float"} for t in td)
+                ctx.ob("C05-R8", f.fq, "'literal' is produced only for a node whose exact type is int or float", ok, node=r, construct="literal production guard",
+                       msg="a literal node is compiled without the exact int/float type test: strings, lists, bools or dictionaries are inlined into Python source and evaluated with Python semantics")
+            elif tag == "var":
+                ok = any(_admitting(e) for e, pol in _pos_atoms(r, f.node) if pol)
+                ctx.ob("C05-R8", f.fq, "'var' is produced only when the variable's value is exactly int/float or a backend array (positive test)", ok, node=r, construct="var production guard",
+                       msg="a variable is admitted on a path where its value is NOT known to be an exact int/float or a backend array: strings, lists of lists or dictionaries reach Python operators (\"ab\"*2 repeats instead of raising)")
+            elif tag in ("binop", "cmp", "reduce", "scan"):
+                sets_ = {n for n in g["in"] if n in opsets}
+                ok = len(sets_) == 1
+                ctx.ob("C05-R8", f.fq, f"'{tag}' is produced only under a positive membership test of the operator in one operator set", ok, node=r, construct=f"{tag} production guard (operator set)",
+                       msg=f"'{tag}' is produced for operators not known to be in an admitted operator set (guards found: {sorted(g['in'])}): operators without a compiled counterpart are emitted")
+                if ok:
+                    tag_sets.setdefault(tag, set()).update(sets_)
+                if tag in ("binop", "cmp"):
+                    ctx.ob("C05-R8", f.fq, f"'{tag}' is produced only for a dyadic operator node (arity == 2)", 2 in g["eq"], node=r, construct=f"{tag} production guard (arity)",
+                           msg=f"'{tag}' can be produced for a node whose arity is not known to be 2: a monad or projection is compiled as a dyad")
+                else:
+                    want = "/" if tag == "reduce" else "\\"
+                    ctx.ob("C05-R8", f.fq, f"'{tag}' is produced only when the adverb is {want!r}", want in g["eq"] and not ({"/", "\\"} - {want}) & g["eq"], node=r, construct=f"{tag} production guard (adverb)",
+                           msg=f"'{tag}' is produced under adverb tests {sorted(x for x in g['eq'] if isinstance(x, str))}: Over and Scan-Over are confused or other adverbs (Each, Converge) are compiled as {tag}")
+            elif tag == "negate":
+                ok = 1 in g["eq"] and "-" in g["eq"]
+                ctx.ob("C05-R8", f.fq, "'negate' is produced only for the monad `-` (arity == 1 and operator == '-')", ok, node=r, construct="negate production guard",
+                       msg=f"'negate' is produced under {sorted(map(repr, g['eq']))}: other monads (#, *, %, ...) or the dyad are compiled as Python negation")
+            else:
+                ctx.ob("C05-R8", f.fq, f"production of unknown tag '{tag}' has a reviewed guard", False, node=r, construct=f"unreviewed production '{tag}'",
+                       msg=f"the front end produces a new IR tag '{tag}' whose admission guard has not been reviewed")
+    return {t: next(iter(v)) for t, v in tag_sets.items() if len(v) == 1}
+
 # ------------------------------------------------------------------ R5
 def _admission(ctx, repo):
     f = repo.fn("compiler:_ast_to_ir")
@@ -374,6 +480,17 @@ SEEDS = [
          "                            return fn(*args)\n                        except (TypeError, ValueError, KeyError):\n                            pass\n                f = self._get_op_fn(x.a.a, x.a.arity)", rule="C05-R2"),
     Seed("no-fallback-toplevel", "fault", "interpreter", "                try:\n                    args = [self._context[s] for s in var_syms]\n                    return fn(*args)\n                except Exception:\n                    pass  # fall through to interpreter",
          "                args = [self._context[s] for s in var_syms]\n                return fn(*args)", rule="C05-R2"),
+    Seed("negate-any-monad", "fault", "compiler", "        if arity == 1 and op_char == '-':", "        if arity == 1:", rule="C05-R8"),
+    Seed("reduce-scan-swapped", "fault", "compiler", "                if adv_char == '/':\n                    return ('reduce', op_char, arg_ir)\n                elif adv_char == '\\\\':\n                    return ('scan', op_char, arg_ir)",
+         "                if adv_char == '\\\\':\n                    return ('reduce', op_char, arg_ir)\n                elif adv_char == '/':\n                    return ('scan', op_char, arg_ir)", rule="C05-R8"),
+    Seed("scan-for-any-other-adverb", "fault", "compiler", "                elif adv_char == '\\\\':\n                    return ('scan', op_char, arg_ir)", "                return ('scan', op_char, arg_ir)", rule="C05-R8"),
+    Seed("cmp-any-dyad", "fault", "compiler", "            if op_char in _CMP_OPS:\n                return ('cmp', op_char, left, right)\n            return None", "            return ('cmp', op_char, left, right)", rule="C05-R8"),
+    Seed("var-admits-lists", "fault", "compiler", "        if isinstance(val, klong._backend.np.ndarray):", "        if isinstance(val, (klong._backend.np.ndarray, list)):", rule="C05-R8"),
+    Seed("var-guard-negated", "fault", "compiler", "        if tv is int or tv is float:\n            if node not in var_refs:", "        if not (tv is str or tv is dict):\n            if node not in var_refs:", rule="C05-R8"),
+    Seed("literal-admits-str", "fault", "compiler", "    if t is int or t is float:\n        return ('literal', node)", "    if t is int or t is float or t is str:\n        return ('literal', node)", rule="C05-R8"),
+    Seed("refactor-rename-opset", "refactor", "compiler", "_ARITH_OPS = {", "_BINOPS = {", more=[("compiler", "            if op_char in _ARITH_OPS:", "            if op_char in _BINOPS:")]),
+    Seed("refactor-adverb-guards-inverted", "refactor", "compiler", "                if adv_char == '/':\n                    return ('reduce', op_char, arg_ir)\n                elif adv_char == '\\\\':\n                    return ('scan', op_char, arg_ir)",
+         "                if adv_char == '/':\n                    return ('reduce', op_char, arg_ir)\n                if adv_char != '\\\\':\n                    return None\n                return ('scan', op_char, arg_ir)"),
     Seed("new-tag-one-backend", "fault", "compiler", "            return ('negate', child)", "            return ('neg', child)", rule="C05-R3"),
     Seed("walk-misses-negate", "fault", "backends/base", "            elif node[0] == 'negate':\n                _walk(node[1])\n", "", rule="C05-R3"),
     Seed("walk-right-first", "fault", "backends/base", "                _walk(node[2])\n                _walk(node[3])", "                _walk(node[3])\n                _walk(node[2])", rule="C05-R3"),
